@@ -6,7 +6,7 @@
 From Amgcl Require Import ExtractCommon.
 From Coq Require Import ExtrOcamlNativeString.
 From Coq Require Import QArith Qcanon.
-From Amgcl Require Import Scalar QcInst Vec Crs Ptree ParamsGen Capi.
+From Amgcl Require Import Scalar QcInst Vec Crs Ptree ParamsGen Capi Capi2.
 Separate Extraction
   QcInst.QcS Scalar.is_zero Scalar.smax Scalar.smin
-  Vec Crs Ptree ParamsGen Capi.
+  Vec Crs Ptree ParamsGen Capi Capi2.
